@@ -128,6 +128,7 @@ CLIENT = "props/client"
 prop("C08", [
     S(CLIENT, "^TestC08Regress$", kind="plain"),
     S(CLIENT, "^TestC08Errnos$", kind="plain"),
+    S(CLIENT, "^TestC08StatusValues$", kind="plain"),
     S(CLIENT, "^TestC08$", q=3000, t=20000, shards=16),
     S(CLIENT, "^TestC08RealTransport$", kind="plain", q=120, t=5000),
 ], ["the simulated kernel never hands out request sequence 0 (the kernel uses 0 for unsolicited events); what the library's own transport hands out is covered by the real-transport stage",
@@ -142,6 +143,8 @@ prop("C16", [
     S(CLIENT, "^TestC16Regress$", kind="plain"),
     S(CLIENT, "^TestC16Constants$", kind="plain"),
     S(CLIENT, "^TestC16FieldValues$", kind="plain"),
+    S(CLIENT, "^TestC16Concurrent$", kind="plain", q=200, t=5000),
+    S(CLIENT, "^TestC16Concurrent$", kind="plain", race=True, q=60, t=1000),
     S(CLIENT, "^TestC16$", q=20000, t=500000, shards=16),
 ], ["struct audit_status field offsets are written from the kernel header by hand; mask/feature bits and message types come from the header snapshot",
     "fields only partly covered by an odd-length buffer are not asserted"],
@@ -164,6 +167,7 @@ prop("C18", [
     S(CLIENT, "^TestC18$", q=5000, t=100000, shards=4),
     S(CLIENT, "^TestC18Multicast$", kind="plain", q=200, t=20000),
     S(CLIENT, "^TestC18AuditClientBuffer$", kind="plain"),
+    S(CLIENT, "^TestC18Uevent$", kind="plain", q=60, t=3000),
     S(CLIENT, "^TestC18Concurrent$", kind="plain", race=True, q=200, t=5000),
     # the same stress without the race detector: its instrumentation changes the timing so much that
     # interleavings which give duplicate sequence numbers stop occurring
@@ -171,6 +175,7 @@ prop("C18", [
 ], ["needs AF_NETLINK sockets (the check is undecided without them)",
     "only side-effect-free requests: NETLINK_ROUTE message types above RTM_MAX with the REQUEST flag, which the kernel refuses with EOPNOTSUPP and echoes",
     "a zero-length datagram cannot be sent between netlink sockets (ENODATA); it is covered at parser level only",
+    "uevent stage: synthetic 'change' events for the loopback device are requested through /sys/class/net/lo/uevent (a broadcast of text, as udevadm trigger causes; no device state changes); skipped where that is not possible",
     "audit-client stage: one socket on NETLINK_AUDIT, requests of the unknown message type 1098 only (refused with EINVAL before the audit subsystem looks at anything else; no state is read or changed)",
     "multicast stage: addresses are added to and removed from the loopback device of a private network namespace (unshare on one locked thread); without the privilege the stage is skipped and its class stays empty"],
    nontrivial_classes=["send-echoed", "send-reply-fills-read-buffer-exactly", "foreign-header-sized-refused", "foreign-short-refused", "parser-short", "parser-ok", "concurrent-batch", "concurrent-batch-with-failing-sends", "client-port-id-differs-from-process-id"])
@@ -190,11 +195,12 @@ prop("C15", [
     S(COAL, "^TestC15Regress$", kind="plain"),
     S(COAL, "^TestC15$", q=3000, t=50000, shards=16),
     S(COAL, "^TestC15CacheChurn$", kind="plain", timeout_t=3000),
+    S(COAL, "^TestC15TableIsolation$", kind="plain"),
     S(COAL, "^TestC15Concurrent$", kind="plain", race=True, q=300, t=20000, timeout_t=3000),
     S(COAL, "^TestC15Concurrent$", kind="plain", q=300, t=20000, timeout_t=3000),
 ], ["events are compared as deep copies with warnings by text; nil and empty containers are not distinguished",
     "ResolveIDs is meant to change the event it is given; that event's snapshot is refreshed, all others must stay equal"],
-   nontrivial_classes=["history-with-repeated-coalescing-of-stateful-group", "history-with-2-live-events", "concurrent-round", "cache-churn"])
+   nontrivial_classes=["history-with-repeated-coalescing-of-stateful-group", "history-with-2-live-events", "concurrent-round", "cache-churn", "table-isolation-sweep"])
 
 TABLES = "props/tables"
 
